@@ -1526,6 +1526,8 @@ class Ecdsa_pk_decompress(Instruction):
             )
 
         if contract_version >= 5:
+            if self._idx == "Secp256r1":
+                return 2400
             return 650
         return 0
 
